@@ -592,14 +592,18 @@ KeepsIdentities(G, H) ==   \* every node of G is in H with the same id and the s
   \A i \in 1..Len(G.nodes) : \E j \in 1..Len(H.nodes) :
      H.nodes[j].id = G.nodes[i].id /\ NodeTag(H.nodes[j]) = NodeTag(G.nodes[i])
 TExt ==
-  /\ l <= Len(Rec) /\ Rec[l].ev = "case" /\ Rec[l].kind \in {"ext", "extadmin"}
+  /\ l <= Len(Rec) /\ Rec[l].ev = "case" /\ Rec[l].kind \in {"ext", "extadmin", "extfail"}
   /\ LET obs == Rec[l].graph
          want == Len(gr.nodes) + (IF Rec[l].kind = "ext" THEN Meta.n ELSE 0)
          tags == {NodeTag(obs.nodes[i]) : i \in 1..Len(obs.nodes)}
          mine == [i \in 1..Len(Meta.clock) |-> (i - 1) + Meta.clock[i]]     \* the allocation rule
          dupByRule == (\E i \in 1..Len(mine) : mine[i] \in extids)
                       \/ (\E i, j \in 1..Len(mine) : i # j /\ mine[i] = mine[j])
-     IN IF ~IsRows THEN
+     IN IF Rec[l].kind = "extfail" THEN
+          (* a statement meant to fail after reserving an identity: nothing of it may remain *)
+          (IF IsRows \/ (Len(obs.nodes) = Len(gr.nodes) /\ KeepsIdentities(gr, obs)) THEN TRUE
+           ELSE Emit(Finding("C32", "failed-statement-left-nodes", [got |-> Len(obs.nodes), want |-> Len(gr.nodes), query |-> Rec[l].query])))
+        ELSE IF ~IsRows THEN
           Emit(Finding("C32", IF Rec[l].kind = "ext" THEN "create-failed" ELSE "admin-failed",
                        [err |-> Res.err, clock |-> Meta.clock, duplicate_by_the_allocation_rule |-> dupByRule,
                         query |-> Rec[l].query]))
@@ -611,7 +615,7 @@ TExt ==
           Emit(Finding("C32", "two-nodes-share-one-creation", [query |-> Rec[l].query]))
         ELSE TRUE
   /\ gr' = IF IsRows THEN Rec[l].graph ELSE gr
-  /\ extids' = IF IsRows THEN extids \cup {(i - 1) + Meta.clock[i] : i \in 1..Len(Meta.clock)} ELSE extids
+  /\ extids' = IF IsRows /\ Rec[l].kind # "extfail" THEN extids \cup {(i - 1) + Meta.clock[i] : i \in 1..Len(Meta.clock)} ELSE extids
   /\ l' = l + 1 /\ UNCHANGED <<ovf, ixpre, firstlab>>
 
 (***************************************************************************)
